@@ -158,7 +158,10 @@ def gen_case(rng: random.Random, algo: str, T: int, E: int, ids, exact: bool, ve
             # how the agent comes by gamma / lambda (constructor, or changed after construction)
             "hp_route": rng.choice(["ctor"] * 6 + HP_ROUTES),
             # PPO: flat Box, or Dict / Tuple with a Box member and a Discrete (scalar) member
-            "okind": rng.choice(["vector", "vector", "dict", "tuple"]) if algo == "PPO" and vec else "vector",
+            "okind": (rng.choice(["vector", "vector", "dict", "tuple"]) if algo == "PPO" else
+                      rng.choice(["vector"] * 8 + ["dict", "tuple", "image"])) if vec else "vector",
+            "norm": bool(rng.random() < 0.5),              # normalize_images of the agent (image observations)
+            "rmix": rng.choice(["none", "none", "int-first"]),
             "nvb": nvb, "rdtype": rng.choice(["f64", "f64", "f32"]), "seed": rng.randrange(1 << 30),
             "r": {}, "v": {}, "d": {}, "nd": {}}
     if algo == "IPPO" and T * E == 1 and any(len(m) == 1 for _, m in groups_of(case)):
@@ -173,6 +176,8 @@ def gen_case(rng: random.Random, algo: str, T: int, E: int, ids, exact: bool, ve
         case["d"][a] = [[cols[e][0][t] for e in range(E)] for t in range(T)]
         case["nd"][a] = [cols[e][1] for e in range(E)]
         case["r"][a] = [[frac(rew()) for _ in range(E)] for _ in range(T)]
+        if case["rmix"] == "int-first":
+            case["r"][a][0] = [str(rng.randint(-2, 2)) for _ in range(E)]
         case["v"][a] = [[frac(next(it)) for _ in range(E)] for _ in range(T)]
     return case
 
@@ -211,23 +216,27 @@ HP_DECOY = (0.875, 0.625)           # gamma, lambda the agent is constructed wit
 
 def _construct(case, g: float, l: float, hp_config=None):
     import agents
-    if case["algo"] == "PPO" and case.get("okind", "vector") != "vector":
+    okind = case.get("okind", "vector")
+    fam = "image" if okind == "image" else "dict"
+    if case["algo"] == "PPO" and okind != "vector":
         from agilerl.algorithms import PPO
         agents.seed_all(case["seed"])
-        return PPO(multi_obs_space(case["okind"]), agents.act_space(case["akind"]), index=0, hp_config=hp_config,
-                   net_config=copy.deepcopy(agents.default_net_config("PPO", "dict")), batch_size=16, device="cpu",
-                   accelerator=None, learn_step=8, update_epochs=1, share_encoders=case["share"], gamma=g, gae_lambda=l)
+        return PPO(multi_obs_space(okind), agents.act_space(case["akind"]), index=0, hp_config=hp_config,
+                   net_config=copy.deepcopy(agents.default_net_config("PPO", fam)), batch_size=16, device="cpu",
+                   accelerator=None, learn_step=8, update_epochs=1, share_encoders=case["share"], gamma=g, gae_lambda=l,
+                   normalize_images=bool(case.get("norm", True)))
     if case["algo"] == "PPO":
         return agents.build("PPO", "vector", seed=case["seed"], share_encoders=case["share"], hp_config=hp_config,
                             action_kind=case["akind"], gamma=g, gae_lambda=l, batch_size=16, update_epochs=1)
     from agilerl.algorithms import IPPO
     ids = case["ids"]
-    obs = [agents.obs_space("vector") for _ in ids]
+    obs = [agents.obs_space("vector") if okind == "vector" else multi_obs_space(okind) for _ in ids]
     act = [agents.act_space(case["akind"], 1 if a.startswith("other") else 0) for a in ids]
     agents.seed_all(case["seed"])
     return IPPO(observation_spaces=obs, action_spaces=act, agent_ids=list(ids), hp_config=hp_config,
-                net_config=agents.default_net_config("IPPO", "vector"), batch_size=16, device="cpu",
-                accelerator=None, learn_step=8, update_epochs=1, gamma=g, gae_lambda=l)
+                net_config=copy.deepcopy(agents.default_net_config("IPPO", "vector" if okind == "vector" else fam)),
+                batch_size=16, device="cpu", accelerator=None, learn_step=8, update_epochs=1, gamma=g, gae_lambda=l,
+                normalize_images=bool(case.get("norm", True)))
 
 
 def build_agent(case):
@@ -280,19 +289,34 @@ def build_agent(case):
     return ag
 
 
+N_CODE = 512        # size of the Discrete member: every provenance code (also of eleven agents) fits
+
+
 def multi_obs_space(okind: str):
-    """Dict / Tuple observation with a Box(3,) member [step, env, code] and a Discrete(32) member = code"""
+    """Dict / Tuple observation with a Box(3,) member [step, env, code] and a Discrete member = code;
+    "image": raw uint8 pixels 0..255, (3, 8, 8): pixel (0,0,0..1) = code, plane 1 = step, plane 2 = env"""
     from gymnasium import spaces
-    vec, k = spaces.Box(-1.0, 1.0, (3,), np.float32), spaces.Discrete(32)
+    if okind == "image":
+        return spaces.Box(0, 255, (3, 8, 8), np.uint8)
+    vec, k = spaces.Box(-1.0, 1.0, (3,), np.float32), spaces.Discrete(N_CODE)
     return spaces.Dict({"vec": vec, "k": k}) if okind == "dict" else spaces.Tuple((vec, k))
 
 
 def pack_obs(okind: str, s4: np.ndarray):
-    """[agent, step, env, code] rows -> the observation of the case's kind (PPO: agent is always 0)"""
+    """[agent, step, env, code] rows -> the observation of the case's kind"""
     if okind == "vector":
         return s4
+    if okind == "image":
+        flat = s4.reshape(-1, 4)
+        img = np.zeros((flat.shape[0], 3, 8, 8), dtype=np.uint8)
+        for i, (_, t, e, c) in enumerate(flat):
+            c = int(c)
+            img[i, 0] = (c * 7 + 3) % 256
+            img[i, 0, 0, 0], img[i, 0, 0, 1] = c % 256, c // 256
+            img[i, 1], img[i, 2] = int(t) % 256, int(e) % 256
+        return img.reshape(*s4.shape[:-1], 3, 8, 8)
     vec = np.ascontiguousarray(s4[..., 1:4]).astype(np.float32)
-    k = np.clip(s4[..., 3], 0, 31).astype(np.int64)
+    k = np.clip(s4[..., 3], 0, N_CODE - 1).astype(np.int64)
     return {"vec": vec, "k": k} if okind == "dict" else (vec, k)
 
 
@@ -324,17 +348,23 @@ def make_rollout(case, next_shift: float = 0.0):
                     ac = ac[:, 0]
             lp = np.array([[-(c + 1) / 64] for c in cs], dtype=np.float32)
             r = np.array([float(Fr(x)) for x in case["r"][a][t]], dtype=rdt)
+            if case.get("rmix") == "int-first":
+                # as real environments do: integer-typed rewards on some steps, fractional floats on others
+                if all(Fr(x).denominator == 1 for x in case["r"][a][t]) and t % 3 == 0:
+                    r = np.array([int(Fr(x)) for x in case["r"][a][t]], dtype=np.int64)
+                else:
+                    r = r.astype(np.float32 if t % 2 else np.float64)
             d = np.array(case["d"][a][t], dtype=np.float64)
             v = np.array([[float(Fr(x))] for x in case["v"][a][t]], dtype=np.float32)
             if not ippo:
                 lp, v = lp[:, 0], v[:, 0]
             if not vec:                                 # no environment dimension at all
                 s, ac, lp, v = s[0], ac[0], lp[0], v[0]
-                r = float(r[0])
+                r = int(r[0]) if r.dtype.kind == "i" and t == 0 else (r[0] if case.get("rmix") == "int-first" else float(r[0]))
                 d = d if ippo else d[0]
             s = pack_obs(case.get("okind", "vector"), s)
             S[a].append(s), A[a].append(ac), L[a].append(lp), R[a].append(r), D[a].append(d), V[a].append(v)
-        ns = np.array([[ai, 9 + next_shift, e, 0.5 if case.get("okind", "vector") == "vector" else 31]
+        ns = np.array([[ai, 9 + next_shift, e, 0.5 if case.get("okind", "vector") == "vector" else 400 + ai * 4 + e]
                        for e in range(E)], dtype=np.float32)
         nd = np.array(case["nd"][a], dtype=np.int8)
         if not vec:
@@ -537,7 +567,7 @@ def analyse_group(case, gid, members, gae, rows, boot, roll_path):
     except KeyError as e:
         raise InfraError(f"recorder record lacks {e}") from None
     if any(x is None for x in [m for _, m in st_members] + [ac, lp, va, ad, re]) or \
-            any(m.shape[1] not in (1, 3, 4) for _, m in st_members) or any(x.shape[1] != 1 for x in (lp, va, ad, re)):
+            any(m.shape[1] not in (1, 3, 4, 192) for _, m in st_members) or any(x.shape[1] != 1 for x in (lp, va, ad, re)):
         problems.append(f"[rows] group {gid}: the training rows do not have {N} = agents*steps*envs rows "
                         f"(shapes {[tuple(rows[k].shape) if hasattr(rows[k], 'shape') else '?' for k in rows]})")
         return impl, ops, numeric, problems, stats0
@@ -562,6 +592,9 @@ def analyse_group(case, gid, members, gae, rows, boot, roll_path):
         if len(s) == 3:                                   # [step, env, code]
             q = from_code(s[2])
             return q if q is not None and (s[0], s[1]) == (q[1], q[2]) else None
+        if len(s) == 192:                                 # raw image: pixels (0,0,0..1) = code, planes 1, 2 = step, env
+            q = from_code(s[0] + 256 * s[1])
+            return q if q is not None and (s[64], s[128]) == (q[1], q[2]) and s[191] == q[2] else None
         return from_code(s[0])                            # Discrete member: the code itself
 
     split_obs = None
@@ -738,7 +771,7 @@ def case_tags(case):
     A = max(len(m) for _, m in groups_of(case))
     t = [f"algo-{case['algo']}", f"T-{case['T']}", f"E-{case['E']}", f"shared-{A}", f"act-{case['akind']}",
          "exact" if case["exact"] else "float", "vec" if case["vec"] else "unvec", f"obs-{case.get('okind', 'vector')}",
-         f"hp-{case.get('hp_route', 'ctor')}",
+         f"hp-{case.get('hp_route', 'ctor')}", f"rewards-{case.get('rmix', 'none')}",
          f"gl-{case['gamma']},{case['lam']}"]
     if any(m != sorted(m) for _, m in groups_of(case)):
         t.append("group-order-not-lexicographic")
